@@ -137,9 +137,86 @@ func driveTwinNeighbours(t *Tracer, r Rng) {
 	}
 }
 
+// driveStrideNeighbours: N-layer queries for two voxels of one fine zoom pair (30 .. 35) that agree in every index
+// but one, which differs by a power of two (or three times one) - far apart on the grid, adjacent in nothing, yet
+// equal under any key that packs the indices into one machine word too narrow for the zoom.  The answer for the
+// list must be the union of the answers for its members (the values exceed TLC's integers: a Law of strings).
+func driveStrideNeighbours(t *Tracer, r Rng) {
+	nl := func(ids []string, hl, vl int64) ([]string, string) {
+		o, res := guard(func() (any, error) { return operated.GetNspatialIdsAroundVoxcels(ids, hl, vl) })
+		if o != "ok" {
+			return nil, "outcome " + o
+		}
+		return strs(res), ""
+	}
+	for z := int64(30); z <= 35; z++ {
+		for k := z - 10; k < z; k++ {
+			for axis := 0; axis < 3; axis++ {
+				n := int64(1) << uint(z)
+				a := ID{H: z, X: r.In(2, n/2-3), Y: r.In(2, n/2-3), V: z, F: r.In(2, n/2-3)}
+				if r.Chance(0.3) {
+					a.H, a.X, a.Y = z-r.In(1, 6), a.X>>6, a.Y>>6 // mixed zoom pair (the stride stays inside the smaller range)
+					if axis < 2 && k >= a.H {
+						continue
+					}
+				}
+				d := int64(1) << uint(k)
+				if r.Chance(0.25) && k+2 < z {
+					d *= 3
+				}
+				b := a
+				switch axis {
+				case 0:
+					b.X = (a.X + d) % (int64(1) << uint(a.H))
+				case 1:
+					b.Y = (a.Y + d) % (int64(1) << uint(a.H))
+				default:
+					b.F = a.F + d
+					if b.F >= n {
+						b.F = a.F - d
+					}
+				}
+				// the other indices equal or within the layer distance
+				c := b
+				if r.Chance(0.5) {
+					c.X += r.In(-1, 1)
+					c.Y += r.In(-1, 1)
+					c.F += r.In(-1, 1)
+				}
+				hl, vl := r.In(0, 2), r.In(0, 2)
+				if hl+vl == 0 {
+					hl = 1
+				}
+				list := []string{a.String(), c.String()}
+				if r.Chance(0.5) {
+					list[0], list[1] = list[1], list[0]
+				}
+				whole, bad := nl(list, hl, vl)
+				set := map[string]bool{}
+				for _, s := range list {
+					one, b1 := nl([]string{s}, hl, vl)
+					if b1 != "" && bad == "" {
+						bad = b1
+					}
+					for _, x := range one {
+						set[x] = true
+					}
+				}
+				parts := make([]string, 0, len(set))
+				for x := range set {
+					parts = append(parts, x)
+				}
+				emitLaw(t, "NLayerListIsUnionOfMembers", map[string]any{"ids": list, "hl": hl, "vl": vl, "stride": d, "axis": axis},
+					sortedCopy(whole), sortedCopy(parts), bad)
+			}
+		}
+	}
+}
+
 func driveShift(t *Tracer, r Rng, n int) {
 	if n >= 100 {
 		driveTwinNeighbours(t, r)
+		driveStrideNeighbours(t, r)
 	}
 	for i := 0; i < n; i++ {
 		hD, vD := r.In(0, 6), r.In(0, 6)
